@@ -1,7 +1,162 @@
 // harness commands owned by property C05
 #![allow(unused_imports, dead_code)]
 use serde_json::{json, Value};
+use sqlparser::ast::*;
+use std::collections::HashMap;
 
-pub fn dispatch(_cmd: &str, _req: &Value) -> Option<Value> {
-    None
+// `sqlcols {sql, dialect, schema: {table: [col, ..]}}` -> {"cols": [name|null, ..]} | {"err": ..}
+// The column names a SQL engine reports for the (single) query, with every `*` / `tbl.*`
+// [EXCLUDE (..) | EXCEPT (..)] expanded against the given base-table schemas, CTEs and derived
+// tables -- the result-set columns of dialects we cannot execute here (duckdb, bigquery, snowflake).
+// Only the SQL shapes prqlc emits are covered; anything else is an explicit error, never a guess.
+type Cols = Vec<Option<String>>;
+type Env = HashMap<String, Cols>;
+
+fn last_ident(o: &ObjectName) -> String {
+    o.0.last()
+        .map(|p| p.as_ident().map(|i| i.value.clone()).unwrap_or_else(|| p.to_string()))
+        .unwrap_or_default()
+}
+
+fn excluded(o: &WildcardAdditionalOptions) -> Result<Vec<String>, String> {
+    if o.opt_replace.is_some() || o.opt_rename.is_some() || o.opt_ilike.is_some() {
+        return Err("wildcard REPLACE/RENAME/ILIKE not covered".into());
+    }
+    let mut out = vec![];
+    match &o.opt_exclude {
+        Some(ExcludeSelectItem::Single(i)) => out.push(i.value.clone()),
+        Some(ExcludeSelectItem::Multiple(v)) => out.extend(v.iter().map(|i| i.value.clone())),
+        None => {}
+    }
+    if let Some(e) = &o.opt_except {
+        out.push(e.first_element.value.clone());
+        out.extend(e.additional_elements.iter().map(|i| i.value.clone()));
+    }
+    Ok(out)
+}
+
+fn minus(cols: &Cols, ex: &[String]) -> Cols {
+    cols.iter()
+        .filter(|c| match c {
+            Some(n) => !ex.iter().any(|e| e.eq_ignore_ascii_case(n)),
+            None => true,
+        })
+        .cloned()
+        .collect()
+}
+
+fn apply_alias(cols: Cols, alias: &Option<TableAlias>) -> Cols {
+    match alias {
+        Some(a) if !a.columns.is_empty() => {
+            let mut c = cols;
+            for (i, d) in a.columns.iter().enumerate() {
+                if i < c.len() {
+                    c[i] = Some(d.name.value.clone());
+                }
+            }
+            c
+        }
+        _ => cols,
+    }
+}
+
+fn factor(f: &TableFactor, env: &Env) -> Result<(String, Cols), String> {
+    match f {
+        TableFactor::Table { name, alias, args: None, .. } => {
+            let n = last_ident(name);
+            let cols = env.get(&n).cloned().ok_or_else(|| format!("unknown relation {n}"))?;
+            let label = alias.as_ref().map(|a| a.name.value.clone()).unwrap_or(n);
+            Ok((label, apply_alias(cols, alias)))
+        }
+        TableFactor::Derived { subquery, alias, .. } => {
+            let cols = query(subquery, env)?;
+            let label = alias.as_ref().map(|a| a.name.value.clone()).unwrap_or_default();
+            Ok((label, apply_alias(cols, alias)))
+        }
+        other => Err(format!("table factor not covered: {other}")),
+    }
+}
+
+fn select(s: &Select, env: &Env) -> Result<Cols, String> {
+    let mut frame: Vec<(String, Cols)> = vec![];
+    for twj in &s.from {
+        frame.push(factor(&twj.relation, env)?);
+        for j in &twj.joins {
+            frame.push(factor(&j.relation, env)?);
+        }
+    }
+    let mut out: Cols = vec![];
+    for it in &s.projection {
+        match it {
+            SelectItem::UnnamedExpr(Expr::Identifier(i)) => out.push(Some(i.value.clone())),
+            SelectItem::UnnamedExpr(Expr::CompoundIdentifier(v)) => out.push(v.last().map(|i| i.value.clone())),
+            SelectItem::UnnamedExpr(_) => out.push(None),
+            SelectItem::ExprWithAlias { alias, .. } => out.push(Some(alias.value.clone())),
+            SelectItem::Wildcard(o) => {
+                let ex = excluded(o)?;
+                for (_, c) in &frame {
+                    out.extend(minus(c, &ex));
+                }
+            }
+            SelectItem::QualifiedWildcard(SelectItemQualifiedWildcardKind::ObjectName(n), o) => {
+                let ex = excluded(o)?;
+                let l = last_ident(n);
+                let (_, c) = frame.iter().find(|(lab, _)| *lab == l).ok_or_else(|| format!("{l}.* names no relation of the FROM clause"))?;
+                out.extend(minus(c, &ex));
+            }
+            SelectItem::QualifiedWildcard(..) => return Err("expression wildcard not covered".into()),
+        }
+    }
+    Ok(out)
+}
+
+fn setexpr(b: &SetExpr, env: &Env) -> Result<Cols, String> {
+    match b {
+        SetExpr::Select(s) => select(s, env),
+        SetExpr::Query(q) => query(q, env),
+        SetExpr::SetOperation { left, .. } => setexpr(left, env),
+        other => Err(format!("query body not covered: {other}")),
+    }
+}
+
+fn query(q: &Query, env: &Env) -> Result<Cols, String> {
+    let mut env2 = env.clone();
+    if let Some(w) = &q.with {
+        for cte in &w.cte_tables {
+            // a recursive CTE may name itself: its columns are those of its first (non-recursive) branch
+            let c = query(&cte.query, &env2)?;
+            let alias = Some(cte.alias.clone());
+            env2.insert(cte.alias.name.value.clone(), apply_alias(c, &alias));
+        }
+    }
+    setexpr(&q.body, &env2)
+}
+
+fn cmd_sqlcols(req: &Value) -> Value {
+    let d = crate::sp_dialect(crate::s(req, "dialect"));
+    let stmts = match sqlparser::parser::Parser::parse_sql(&*d, crate::s(req, "sql")) {
+        Ok(s) => s,
+        Err(e) => return json!({"parse_err": e.to_string()}),
+    };
+    let mut env: Env = HashMap::new();
+    if let Some(o) = req.get("schema").and_then(|v| v.as_object()) {
+        for (t, cs) in o {
+            let cols = cs.as_array().map(|a| a.iter().map(|c| c.as_str().map(|x| x.to_string())).collect()).unwrap_or_default();
+            env.insert(t.clone(), cols);
+        }
+    }
+    match stmts.as_slice() {
+        [Statement::Query(q)] => match query(q, &env) {
+            Ok(c) => json!({ "cols": c }),
+            Err(e) => json!({ "err": e }),
+        },
+        _ => json!({"err": "not a single query"}),
+    }
+}
+
+pub fn dispatch(cmd: &str, req: &Value) -> Option<Value> {
+    match cmd {
+        "sqlcols" => Some(cmd_sqlcols(req)),
+        _ => None,
+    }
 }
